@@ -60,6 +60,10 @@ pub struct Stats {
     pub sugar_user: u32,
     pub builtin_via_parent: u32,
     pub max_call_depth: u32,
+    /// reads of a heap value through a different kind of location (variable name,
+    /// this, field, array element, call result) than the one its last mutation used
+    pub alias_observed: u32,
+    pub arity_failures: u32,
 }
 
 pub struct RunResult {
@@ -93,6 +97,16 @@ pub struct Interp {
     stats: Stats,
     max_depth: u32,
     pub max_output: usize,
+    last_write_via: Vec<u64>,
+}
+
+fn via_code(e: &E) -> u64 {
+    match e {
+        E::Var(n) => 16 + crate::tape::digest(n.as_bytes()) % 1_000_000,
+        E::Field(..) => 1,
+        E::Index(..) => 2,
+        _ => 3,
+    }
 }
 
 enum Stop {
@@ -123,6 +137,7 @@ pub fn run(p: &Prog, fuel: u64) -> RunResult {
         stats: Stats::default(),
         max_depth: 2500,
         max_output: 1 << 20,
+        last_write_via: vec![],
     };
     // functions are globals known before execution starts (documented bytecode model)
     let mut dup = false;
@@ -249,6 +264,7 @@ impl Interp {
             ),
         };
         self.allocs.push(shape);
+        self.last_write_via.push(0);
         self.heap.push(o);
         V::Ref(self.heap.len() - 1)
     }
@@ -349,12 +365,14 @@ impl Interp {
             E::Index(a, i) => {
                 let av = self.eval(a)?;
                 let iv = self.eval(i)?;
+                self.note_read(av, a);
                 self.call_method(av, "get", vec![iv], true)
             }
             E::IndexSet(a, i, v) => {
                 let av = self.eval(a)?;
                 let iv = self.eval(i)?;
                 let vv = self.eval(v)?;
+                self.note_write(av, a);
                 self.call_method(av, "set", vec![iv, vv], true)
             }
             E::Object(p, ms) => {
@@ -389,6 +407,7 @@ impl Interp {
             }
             E::Field(o, f) => {
                 let ov = self.eval(o)?;
+                self.note_read(ov, o);
                 match ov {
                     V::Ref(i) => match &self.heap[i] {
                         HObj::Object { fields, .. } => match fields.iter().find(|(k, _)| k == f) {
@@ -403,6 +422,7 @@ impl Interp {
             E::FieldSet(o, f, v) => {
                 let ov = self.eval(o)?;
                 let vv = self.eval(v)?;
+                self.note_write(ov, o);
                 match ov {
                     V::Ref(i) => match &mut self.heap[i] {
                         HObj::Object { fields, .. } => match fields.iter_mut().find(|(k, _)| k == f) {
@@ -428,6 +448,7 @@ impl Interp {
                     None => return fail(format!("unknown function {}", f)),
                 };
                 if def.params.len() != avs.len() {
+                    self.stats.arity_failures += 1;
                     return fail(format!("function {} arity", f));
                 }
                 self.stats.user_calls += 1;
@@ -466,6 +487,21 @@ impl Interp {
                 }
             }
             E::Fun(..) => Ok(V::Null),
+        }
+    }
+
+    fn note_write(&mut self, v: V, via: &E) {
+        if let V::Ref(i) = v {
+            self.last_write_via[i] = via_code(via);
+        }
+    }
+
+    fn note_read(&mut self, v: V, via: &E) {
+        if let V::Ref(i) = v {
+            let w = self.last_write_via[i];
+            if w != 0 && w != via_code(via) {
+                self.stats.alias_observed += 1;
+            }
         }
     }
 
@@ -511,6 +547,7 @@ impl Interp {
                     match found {
                         Some(def) => {
                             if def.params.len() != args.len() {
+                                self.stats.arity_failures += 1;
                                 return fail(format!("method {} arity", name));
                             }
                             self.stats.method_calls += 1;
